@@ -176,6 +176,11 @@ def run(ctx):
     # ---- R06.6 objects released by close are detached: drop-site audit (shared with C09) ----
     drop_site_audit(ctx, r, 'R06.6')
 
+    # ---- R06.8 the test that discards an object returned to a closed pool (`size <= max_size` with max_size 0) is only as
+    # good as the size counter: its writers are exactly the accounted ones
+    from .rules_C11 import size_inventory
+    size_inventory(ctx, r, 'R06.8')
+
     ctx.not_decided += ['promptness of waking parked getters and that they observe Closed (tokio Semaphore::close semantics)',
                         'objects that outlive every pool handle "can still be used": follows from Weak + Option typestate (C02 R02.4/R02.5)']
     ctx.assumptions += ['tokio: acquire on a closed semaphore fails, close() wakes all waiters']
